@@ -1,5 +1,6 @@
 import BreezyVerif.Lemmas.C32B
 import BreezyVerif.Lemmas.C32W
+import BreezyVerif.Lemmas.C32X
 /-
 C32 — operations through a smart server match local operations.
 
@@ -176,7 +177,8 @@ branch's tip / tags) are coherent with the new stored state again.  Hypotheses: 
 the VFS branch's tip cache after `set_last_revision_info` (`tipCoherent`, as /repo does), and either keeps
 both tag caches coherent or the operation brings no source tags while the VFS branch's tags cache is empty. -/
 theorem remote_session_step_spec (v : Variant) (src : Graph) (ex : List RevId) (o : Obj) (st : St) (op : SOp)
-    (hv : v.tipCoherent = true) (ht : (v.tagsOwn = true ∧ v.tagsReal = true) ∨ NoSrcTags op)
+    (hv : v.tipCoherent = true) (hl : v.leaveReset = true)
+    (ht : (v.tagsOwn = true ∧ v.tagsReal = true) ∨ NoSrcTags op)
     (hc : Coherent o st) (hi : TagsInv v o) :
     (rsStep v src ex o st op).1 = (specStep src o.lk st op).1
       ∧ (rsStep v src ex o st op).2.1.lk = (specStep src o.lk st op).2.1
@@ -184,7 +186,7 @@ theorem remote_session_step_spec (v : Variant) (src : Graph) (ex : List RevId) (
       ∧ Coherent (rsStep v src ex o st op).2.1 (rsStep v src ex o st op).2.2
       ∧ TagsInv v (rsStep v src ex o st op).2.1 := by
   unfold rsStep
-  rw [rLock_fun_eq, rUnlock_fun_eq]
+  rw [rLock_fun_eq, rUnlock_fun_eq, hl]
   apply sessStep_spec src (rsBody v src ex) (TagsInv v) (tagsInv_stable v) o st op hc hi
   intro o' st' hc' hi' hw
   have hts : TagsSafe v op o' := by
@@ -215,7 +217,8 @@ theorem local_session_run_spec (src : Graph) :
 /-- **cache-invalidation invariant, by induction over the operations**: along ANY script (arbitrary
 nesting of lock scopes, VFS-delegated pulls, tip and tag writes over RPC, reads) the remote object stays
 coherent with the stored state, and the whole run returns the specification's results and final state -/
-theorem remote_session_run_spec (v : Variant) (src : Graph) (ex : List RevId) (hv : v.tipCoherent = true) :
+theorem remote_session_run_spec (v : Variant) (src : Graph) (ex : List RevId) (hv : v.tipCoherent = true)
+    (hl : v.leaveReset = true) :
     ∀ (ops : List SOp) (o : Obj) (st : St), Coherent o st → TagsInv v o →
       ((v.tagsOwn = true ∧ v.tagsReal = true) ∨ ∀ op ∈ ops, NoSrcTags op) →
       (runSess (rsStep v src ex) o st ops).1 = (runSpec src o.lk st ops).1
@@ -232,8 +235,8 @@ theorem remote_session_run_spec (v : Variant) (src : Graph) (ex : List RevId) (h
       rcases ht with h | h
       · exact Or.inl h
       · exact Or.inr (fun op' h' => h op' (List.mem_cons_of_mem _ h'))
-    obtain ⟨s1, s2, s3, s4, s5⟩ := remote_session_step_spec v src ex o st op hv ht1 hc hi
-    obtain ⟨r1, r2, r3, r4⟩ := remote_session_run_spec v src ex hv ops _ _ s4 s5 ht2
+    obtain ⟨s1, s2, s3, s4, s5⟩ := remote_session_step_spec v src ex o st op hv hl ht1 hc hi
+    obtain ⟨r1, r2, r3, r4⟩ := remote_session_run_spec v src ex hv hl ops _ _ s4 s5 ht2
     simp only [runSess, runSpec]
     rw [r1, r2, r3] at *
     rw [s1, s2, s3] at *
@@ -248,7 +251,7 @@ theorem remote_session_refines_local (src : Graph) (ex : List RevId) (ops : List
     (runSess (rsStep Variant.fixed src ex) ro st ops).1 = (runSess (lsStep src) lo st ops).1
       ∧ (runSess (rsStep Variant.fixed src ex) ro st ops).2.2 = (runSess (lsStep src) lo st ops).2.2
       ∧ (runSess (rsStep Variant.fixed src ex) ro st ops).2.1.lk = (runSess (lsStep src) lo st ops).2.1.lk := by
-  obtain ⟨a1, a2, a3, _⟩ := remote_session_run_spec Variant.fixed src ex rfl ops ro st hr (Or.inl ⟨rfl, rfl⟩)
+  obtain ⟨a1, a2, a3, _⟩ := remote_session_run_spec Variant.fixed src ex rfl rfl ops ro st hr (Or.inl ⟨rfl, rfl⟩)
     (Or.inl ⟨rfl, rfl⟩)
   obtain ⟨b1, b2, b3, _⟩ := local_session_run_spec src ops lo st hl hlo
   rw [a1, a2, a3, b1, b2, b3, hk]
@@ -263,7 +266,7 @@ theorem remote_session_refines_local_partial (src : Graph) (ex : List RevId) (op
     (runSess (rsStep Variant.asFound src ex) ro st ops).1 = (runSess (lsStep src) lo st ops).1
       ∧ (runSess (rsStep Variant.asFound src ex) ro st ops).2.2 = (runSess (lsStep src) lo st ops).2.2
       ∧ (runSess (rsStep Variant.asFound src ex) ro st ops).2.1.lk = (runSess (lsStep src) lo st ops).2.1.lk := by
-  obtain ⟨a1, a2, a3, _⟩ := remote_session_run_spec Variant.asFound src ex rfl ops ro st hr (Or.inr hn)
+  obtain ⟨a1, a2, a3, _⟩ := remote_session_run_spec Variant.asFound src ex rfl rfl ops ro st hr (Or.inr hn)
     (Or.inr hops)
   obtain ⟨b1, b2, b3, _⟩ := local_session_run_spec src ops lo st hl hlo
   rw [a1, a2, a3, b1, b2, b3, hk]
@@ -278,7 +281,7 @@ theorem session_caches_scoped (v : Variant) (src : Graph) (ex : List RevId) :
   | op :: ops, o, st, hs => by
     simp only [runSess]
     exact session_caches_scoped v src ex ops _ _
-      (sessStep_scoped _ _ (rsBody v src ex) (rsBody_lk v src ex) o st op hs)
+      (sessStep_scoped _ _ _ (rsBody v src ex) (rsBody_lk v src ex) o st op hs)
 
 /-- the same for the local object -/
 theorem local_session_caches_scoped (src : Graph) :
@@ -287,7 +290,7 @@ theorem local_session_caches_scoped (src : Graph) :
   | op :: ops, o, st, hs => by
     simp only [runSess]
     exact local_session_caches_scoped src ops _ _
-      (sessStep_scoped _ _ (lsBody src) (lsBody_lk src) o st op hs)
+      (sessStep_scoped _ _ _ (lsBody src) (lsBody_lk src) o st op hs)
 
 
 /-- **the property for the modelled session operations, without any hypothesis**: for every stored state,
@@ -320,7 +323,7 @@ theorem seeded_variant_invisible_without_lock_scope (src : Graph) (ex : List Rev
   cases op with
   | setTip n r =>
     simp only [rsStep, sessStep]
-    exact withLk_unlocked_mod_caches _ _ _ o st _ _ hu
+    exact withLk_unlocked_mod_caches _ _ _ _ o st _ _ hu
       (fun o' st' => ⟨rsBody_lk _ src ex _ o' st', rsBody_lk _ src ex _ o' st'⟩)
       (fun o' st' => rsBody_setTip_mod_caches _ _ src ex n r o' st')
   | _ => rfl
@@ -362,6 +365,84 @@ theorem stale_vfs_tags_cache_witness :
       ∧ (runSess (rsStep Variant.asFound wSrc []) {} St.init ops).2.2.tags = [(tV1, wA1), (tV2, wA1)] := by
   decide
 
+
+/-! ### token locks, the leave flag, a second holder of the physical lock -/
+
+/-- **no orphaned physical lock** (invariant, by induction over the operations): along ANY script on one
+long-lived RemoteBranch — lock scopes with and without tokens, borrowed locks, `dont_leave_lock_in_place()`, a
+second holder object taking and releasing the physical lock, VFS pulls, tip and tag writes — that does not call
+`leave_lock_in_place()`, every physical lock has a holder that will release it: it is free, or held by the
+second holder, or held by the object in a scope whose last unlock releases it.  Nothing is assumed about the
+leave flag the object carries over from earlier lock cycles. -/
+theorem remote_session_no_orphaned_lock (src : Graph) (ex : List RevId) (ops : List SOp) (o : Obj) (st : St)
+    (hc : Coherent o st) (hn : NoOrphan o.lk st) (hops : ∀ op ∈ ops, NoLeave op) :
+    NoOrphan (runSess (rsStep Variant.fixed src ex) o st ops).2.1.lk (runSess (rsStep Variant.fixed src ex) o st ops).2.2 := by
+  obtain ⟨_, a2, a3, _⟩ := remote_session_run_spec Variant.fixed src ex rfl rfl ops o st hc (Or.inl ⟨rfl, rfl⟩)
+    (Or.inl ⟨rfl, rfl⟩)
+  rw [a2, a3]
+  exact runSpec_noOrphan src ops o.lk st hops hn
+
+/-- **after the last unlock the physical lock is released, whatever earlier lock cycles did**: when such a
+script ends with the object unlocked and the second holder not holding, the stored branch is not locked -/
+theorem physical_lock_free_when_nobody_holds (src : Graph) (ex : List RevId) (ops : List SOp) (o : Obj) (st : St)
+    (hc : Coherent o st) (hn : NoOrphan o.lk st) (hops : ∀ op ∈ ops, NoLeave op)
+    (hu : (runSess (rsStep Variant.fixed src ex) o st ops).2.1.lk.mode = .unlocked)
+    (ho : (runSess (rsStep Variant.fixed src ex) o st ops).2.2.owner = none) :
+    (runSess (rsStep Variant.fixed src ex) o st ops).2.2.lock = none := by
+  rcases remote_session_no_orphaned_lock src ex ops o st hc hn hops with h | h | h
+  · exact h
+  · rw [ho] at h; simp at h
+  · rw [hu] at h; cases h.1
+
+/-- a successful `lock_write()` WITHOUT a token on an unlocked object clears the leave flag — whatever value
+earlier lock cycles (token locks, `leave_lock_in_place()`) left in it, for ANY object and stored state — and
+holds the physical lock with the object's own token (`leaveReset`: as /repo does) -/
+theorem untokened_lock_clears_leave_flag (v : Variant) (src : Graph) (ex : List RevId) (o : Obj) (st : St)
+    (hl : v.leaveReset = true) (hu : o.lk.mode = .unlocked)
+    (hok : (rsStep v src ex o st .lockW).1 = .token) :
+    (rsStep v src ex o st .lockW).2.1.lk.leave = false
+      ∧ (rsStep v src ex o st .lockW).2.1.lk.mode = .w
+      ∧ (rsStep v src ex o st .lockW).2.1.lk.count = 1
+      ∧ (rsStep v src ex o st .lockW).2.2.lock = (rsStep v src ex o st .lockW).2.1.lk.token
+      ∧ (rsStep v src ex o st .lockW).2.1.lk.token.isSome = true := by
+  revert hok
+  simp only [rsStep, sessStep, acquire, hu, hl, rLock_eq, if_true, primLock]
+  cases hlk : st.lock with
+  | some x => simp
+  | none => simp
+
+/-- … and the last unlock of a write lock whose leave flag is clear sends `Branch.unlock`: the physical lock
+is released (any client variant, any coherent object) -/
+theorem last_unlock_releases (v : Variant) (src : Graph) (ex : List RevId) (o : Obj) (st : St)
+    (hc : Coherent o st) (hm : o.lk.mode = .w) (hcnt : o.lk.count = 1) (hlv : o.lk.leave = false) :
+    (rsStep v src ex o st .unlock).1 = .ok
+      ∧ (rsStep v src ex o st .unlock).2.2.lock = none
+      ∧ (rsStep v src ex o st .unlock).2.1.lk.mode = .unlocked := by
+  obtain ⟨hs, hl⟩ := hc.2.2.2.2 hm
+  obtain ⟨t, htk⟩ := Option.isSome_iff_exists.mp hs
+  simp only [rsStep, sessStep, release, hm, hcnt, htk, hlv, rUnlock_eq, primRelease]
+  simp [hl, htk, Obj.clear]
+
+/-- **a stale leave flag is observable** (the input family the generator must contain): the second holder
+locks, the object borrows the lock with the token and unlocks (the lock correctly stays), the holder releases,
+the object takes and releases a lock of its own, the holder locks again.  Locally and with the correct client
+the last step succeeds and the lock was free after step 6; the client that does not reset `_leave_lock` never
+sent `Branch.unlock`: the branch is still locked with the object's token and the holder gets LockContention -/
+theorem stale_leave_flag_witness :
+    (runSess (lsStep []) {} St.init leaveScript).1 = [.token, .token, .ok, .ok, .token, .ok, .token]
+      ∧ (runSess (rsStep Variant.fixed [] []) {} St.init leaveScript).1 = [.token, .token, .ok, .ok, .token, .ok, .token]
+      ∧ (runSess (rsStep Variant.leaveSeeded [] []) {} St.init leaveScript).1
+          = [.token, .token, .ok, .ok, .token, .ok, .err .lockContention]
+      ∧ (runSess (rsStep Variant.fixed [] []) {} St.init (leaveScript.take 6)).2.2.lock = none
+      ∧ (runSess (rsStep Variant.leaveSeeded [] []) {} St.init (leaveScript.take 6)).2.2.lock = some 1 := by
+  decide
+
+
+example : NoOrphan {} St.init ∧ (∀ op ∈ leaveScript, NoLeave op) := by decide
+
+example :
+    let r := runSess (rsStep Variant.fixed [] []) { lk := { leave := true } } St.init [.lockW]
+    Coherent r.2.1 r.2.2 ∧ r.2.1.lk.mode = .w ∧ r.2.1.lk.count = 1 ∧ r.2.1.lk.leave = false := by decide
 
 /-- the session specification extends the single-operation model of part 1: on an unlocked object an
 operation of the session model is the corresponding `localStep` (here the write operation `tagSet` …) -/
